@@ -250,7 +250,21 @@ def recursion_order(ctx, o, ps: PassShape, pt):
                 if isinstance(x, ast.Call) and any(isinstance(a_, ast.Name) and a_.id == lv for a_ in x.args):
                     return True
             return False
-        if lv and extra and all(_maybe_membership(t) for t, p in extra):
+        def _skips_siblings(t, p):
+            """the call is made only for dependencies NOT in a container built from the children of the task's parent
+            (`if id(dep) in siblings[:position]: continue`): the rule knows which dependencies are skipped - siblings"""
+            if facts.cond_is(t, p, "$k in $c", want=False) is None:
+                return False
+            at = ps.cfg.node_containing(t)
+            tx = ps.ex.expand(t, at) if at is not None else t
+            return any(match(f"{ps.task}.parent.children", x) for x in ast.walk(tx) if isinstance(x, ast.Attribute))
+        sib = [(t, p) for t, p in extra if lv and _skips_siblings(t, p)]
+        if sib:
+            o.refute(ps.f, c, sib[0][0], f"the recursive call on a dependency is skipped under `{src(sib[0][0])[:60]}`, i.e. for {ps.rel} that are "
+                                         f"children of the task's own parent: when the task is first reached through a dependency link (before "
+                                         f"its summary), such a sibling has not been scheduled yet, its {ps.end_attr} is None and drops out of "
+                                         f"the bound")
+        elif lv and extra and all(_maybe_membership(t) for t, p in extra):
             # a test on the dependency itself in a form that is not read (membership in the WBS spelled differently?): C14's
             # recursion_stays_in_wbs judges it; here it is not known which dependencies it skips
             o.undecided(ps.f, c, c, f"the recursive call on a dependency runs under `{src(extra[0][0])[:60]}`, a test on the dependency the "
